@@ -106,18 +106,33 @@ class WaitingSender(explore.Scenario):
         think = self.params.get("think", 0)
         tm = shims.make_time()
 
+        resend = self.params.get("resend", 0)
+
         def caller(i):
             if stagger and i:
                 tm.sleep(stagger * i)        # callers arriving one after the other, not all at once
             req = make_request(i)
             ans = app.send_message(req)
             results[i] = (ans.header.get_hop_by_hop(), id(ans)) if ans is not None else None
+            for r in range(resend):
+                # the same request once more, as soon as its answer is in (a retry: the Hop-by-Hop identifier is
+                # free again, the exchange it belonged to is over)
+                ans = app.send_message(req)
+                results[(i, r + 1)] = (ans.header.get_hop_by_hop(), id(ans)) if ans is not None else None
 
         def peer():
             seen = {}
             delivered = 0
             if unsolicited:
                 worker.notify_incoming_message(make_answer(0x0a0000ff, 99))
+            if resend:
+                # one caller, answered each time its request shows up
+                for r in range(resend + 1):
+                    req = outbox.get()
+                    if think and r:
+                        tm.sleep(think)      # the peer takes its time over the repeated request
+                    worker.notify_incoming_message(make_answer(req.header.get_hop_by_hop(), 50 + r))
+                return
             while delivered < k:
                 if eager:
                     req = outbox.get()
@@ -154,14 +169,17 @@ class WaitingSender(explore.Scenario):
         errs = []
         k = rt.observations.get("k", 0)
         results = rt.observations.get("results", {})
-        shape = f"k{self.params['k']}"
+        shape = f"k{self.params['k']}" + (":resend" if self.params.get("resend") else "")
         if rt.verdict != "done":
             waiting = [f"{n}@{w}" for n, st, w, _l in rt.final_states if n.startswith("caller") and st != "done"]
             errs.append((f"C14:{rt.verdict}:{shape}:callers-never-woken",
                          f"execution ended in {rt.verdict}; callers still waiting: {waiting}; "
-                         f"returned so far: {sorted(results)}"))
+                         f"returned so far: {sorted(map(str, results))}"))
             return errs
         seen_objs = {}
+        for key, r in results.items():
+            if isinstance(key, tuple) and (r is None or r[0] != 0x0a000000 + key[0]):
+                errs.append((f"C14:wrong-answer:{shape}:resend", f"caller {key[0]}'s repeated request was given {r}"))
         for i in range(k):
             r = results.get(i)
             if r is None:
@@ -181,7 +199,7 @@ class WaitingSender(explore.Scenario):
         return errs
 
     def outcome(self, rt):
-        return (rt.verdict, tuple(sorted((i, r[0] if r else None) for i, r in rt.observations.get("results", {}).items())))
+        return (rt.verdict, tuple(sorted((str(i), r[0] if r else None) for i, r in rt.observations.get("results", {}).items())))
 
 
 GX = 16777238
@@ -290,6 +308,8 @@ SCENARIO_CLASSES = {"waiting-sender": WaitingSender, "two-connections": TwoConne
 
 
 def scenarios(tier):
+    yield WaitingSender(k=1, order=[0], eager=True, unsolicited=False, resend=1)
+    yield WaitingSender(k=1, order=[0], eager=True, unsolicited=False, resend=1, think=5.0)
     yield TwoConnections(order=[0, 1])
     yield TwoConnections(order=[1, 0])
     yield TwoConnections(order=[0], connections=1, end_after_answer=True)
